@@ -64,8 +64,14 @@ def tdWellFormed (start K : Nat) (terms : List Nat) : Bool :=
     else decide (1 ≤ t) && (h == start || decide (terms.getD (h - 1) 0 ≤ t)) &&
       decide (((terms.drop start).filter (· == t)).length ≤ K * 8)
 
-def step (_ : Unit) (line : String) : Unit × String :=
-  match words line with
+/-- `g<k>` / `s<k>`, k ≥ 1: the k-th snapshot `Get` / `CreateSnapshot` of the check fails -/
+def parseFault (f : String) : Bool :=
+  match ((f.drop 1).toString).toNat? with
+  | some k => (f.startsWith "g" || f.startsWith "s") && decide (1 ≤ k) && decide (k ≤ 1000)
+  | none => false
+
+def base (ws : List String) : Unit × String :=
+  match ws with
   | "xp" :: start :: init :: hist :: tip :: h :: ownBits :: preBits :: pos :: rest =>
     match start.toNat?, parseSet init, parseHist hist, tip.toNat?, h.toNat?, ownBits.toNat?, preBits.toNat?, pos.toNat?,
         parseJustify (h.toNat?.getD 0) rest with
@@ -91,6 +97,26 @@ def step (_ : Unit) (line : String) : Unit × String :=
         ((), verdict (tdCheckMinerMatch c (terms.getD (h - 1) 0) preBits term ⟨h, ownBits, pos, j⟩))
     | _, _, _, _, _, _, _, _, _, _ => ((), "bad-op")
   | _ => ((), "bad-op")
+
+def step (_ : Unit) (line : String) : Unit × String :=
+  match words line with
+  -- a check during which a read of the validator record fails has NO validator set to check against (`faultedLookup`):
+  -- nothing is accepted.  (The harness answers `-` when the check made fewer reads than the fault's ordinal.)
+  | "xpf" :: f :: rest =>
+    if !parseFault f then ((), "bad-op") else
+    if (base ("xp" :: rest)).2 == "bad-op" then ((), "bad-op") else ((), verdict (matchQC (faultedLookup true none) []))
+  | "tdf" :: f :: rest =>
+    if !parseFault f then ((), "bad-op") else
+    if (base ("td" :: rest)).2 == "bad-op" then ((), "bad-op") else ((), verdict (matchQC (faultedLookup true none) []))
+  -- the same `td` line over an election record with tied ballots, evaluated `reps` times: the recorded set (already
+  -- in the order of the address tie-break) is the elected list at every evaluation
+  | "tdt" :: reps :: extras :: rest =>
+    match reps.toNat?, parseSet extras, parseHist (rest.getD 2 "") with
+    | some reps, some extras, some hist =>
+      if reps < 1 || reps > 10000 || hist.any (fun e => e.set.any (fun a => extras.contains a)) then ((), "bad-op")
+      else base ("td" :: rest)
+    | _, _, _ => ((), "bad-op")
+  | ws => base ws
 
 def run : IO Unit := loop step ()
 
